@@ -1,7 +1,262 @@
-(* WireVm.v — wire interfaces of the "vm" area (see docs/AGENT_GUIDE.md for the id range).
-   [run_vm c] receives the whole case (first element = interface id). *)
+(* WireVm.v — wire interfaces of the "vm" area (ids 70-99).
+   70: session — `70 nforms (len cp...)*`: each form text is evaluated datum by datum
+       in ONE vm booted with the prelude; result: per datum `OK <write>` | `ERR` |
+       `ERR user <irritants>` | `ERR incomplete`, then ` LOG` and the display/write log. *)
 From Coq Require Import String.
-From MW Require Import Model.Base Model.Datum.
+From MW Require Import Model.Base Model.F64 Model.Num Model.NumFmt Model.Datum Model.Lex Model.Parse
+  Model.VmTypes Model.Heap Model.VmBase Model.Compile Model.Vm Model.Builtins.
 Open Scope N_scope.
 
-Definition run_vm (c : list N) : list N := S_ "BADCASE".
+Fixpoint take_texts (k : nat) (c : list N) : option (list text) :=
+  match k with
+  | O => match c with [] => Some [] | _ => None end
+  | S k' =>
+      match c with
+      | n :: r =>
+          let n' := N.to_nat n in
+          if (length r <? n')%nat then None else
+          match take_texts k' (skipn n' r) with
+          | Some ts => Some (firstn n' r :: ts)
+          | None => None
+          end
+      | [] => None
+      end
+  end.
+
+Definition show_form_result (r : form_result) : list N :=
+  match r with
+  | FOk c => S_ " OK "%string ++ esc_text (write c)
+  | FErr e msg =>
+      if e =? E_INCOMPLETE then S_ " ERR incomplete"%string
+      else if e =? E_USER then S_ " ERR user "%string ++ esc_text msg
+      else S_ " ERR"%string
+  | FPanic => S_ " PANIC"%string
+  | FNoFuel => S_ " NOFUEL"%string
+  end.
+
+Definition show_ev (e : outev) : list N :=
+  match e with
+  | EvDisplay c => S_ " D:"%string ++ esc_text (display c)
+  | EvWrite c => S_ " W:"%string ++ esc_text (write c)
+  end.
+
+Fixpoint run_forms (forms : list text) (s : vm) (acc : list N) : list N * vm :=
+  match forms with
+  | [] => (acc, s)
+  | t :: r =>
+      let '(rs, s') := eval_text_all (S (length t)) t s [] in
+      run_forms r s' (acc ++ S_ " |"%string ++ flat_map show_form_result rs)
+  end.
+
+Definition run_session_from (b : option vm) (forms : list text) : list N :=
+  match b with
+  | None => S_ "BOOTFAIL"%string
+  | Some s0 =>
+      let '(out, s) := run_forms forms s0 [] in
+      S_ "SESSION"%string ++ out ++ S_ " LOG"%string ++ flat_map show_ev (rev (out_log s))
+  end.
+
+(* ------------------------------------------------ sliced execution (72, 73) *)
+(* budgets: constant B (lcg state unused) or 1 + (x >> 33) mod M along the LCG
+   x' = x * 6364136223846793005 + 1442695040888963407 mod 2^64 *)
+Definition lcg (x : N) : N := (x * 6364136223846793005 + 1442695040888963407) mod 18446744073709551616.
+Definition next_budget (m : N) (x : N) : N * N :=
+  if m =? 0 then (x, x) else let x' := lcg x in (1 + (N.shiftr x' 33) mod m, x').
+
+(* prepare_eval, then run_count(budget) until it returns Some/Err; [slices] bounds
+   the number of resumptions *)
+Fixpoint resume (slices : nat) (m : N) (x : N) (s : vm) : res run_result * N :=
+  match slices with
+  | O => (RNoFuel, x)
+  | S k =>
+      let '(b, x') := if m =? 0 then (x, x) else next_budget m x in
+      match run_count other_builtin (S (N.to_nat b)) (Some b) s with
+      | ROk Yield s' => resume k m x' s'
+      | r => (r, x')
+      end
+  end.
+Definition SLICES : nat := N.to_nat 600000.
+
+Fixpoint sliced_text_all (nsl : nat) (fuel : nat) (m x : N) (t : text) (s : vm) (acc : list form_result)
+    : list form_result * vm * N :=
+  match fuel with
+  | O => (rev (FNoFuel :: acc), s, x)
+  | S f =>
+      match parse_text t with
+      | Ok (d, rest) =>
+          let '(r, x') :=
+            match prepare_eval d s with
+            | ROk _ s1 => resume nsl m x s1
+            | RErr e msg s1 => (ROk (Failed e msg None) s1, x)
+            | RPanic k => (RPanic k, x)
+            | RNoFuel => (RNoFuel, x)
+            end in
+          match r with
+          | ROk (Done c) s' =>
+              match rest with
+              | Some r' => sliced_text_all nsl f m x' r' s' (FOk c :: acc)
+              | None => (rev (FOk c :: acc), s', x')
+              end
+          | ROk (Failed e msg _) s' =>
+              match rest with
+              | Some r' => sliced_text_all nsl f m x' r' s' (FErr e msg :: acc)
+              | None => (rev (FErr e msg :: acc), s', x')
+              end
+          | ROk Yield s' => (rev (FNoFuel :: acc), s', x')
+          | RErr e msg s' => (rev (FErr e msg :: acc), s', x')
+          | RPanic _ => (rev (FPanic :: acc), s, x')
+          | RNoFuel => (rev (FNoFuel :: acc), s, x')
+          end
+      | Err e => (rev (FErr e [] :: acc), s, x)
+      | Panic _ => (rev (FPanic :: acc), s, x)
+      | NoFuel => (rev (FNoFuel :: acc), s, x)
+      end
+  end.
+
+Fixpoint run_forms_sliced (m x : N) (forms : list text) (s : vm) (acc : list N) : list N * vm :=
+  match forms with
+  | [] => (acc, s)
+  | t :: r =>
+      let '(rs, s', x') := sliced_text_all SLICES (S (length t)) m x t s [] in
+      run_forms_sliced m x' r s' (acc ++ S_ " |"%string ++ flat_map show_form_result rs)
+  end.
+
+Definition run_sliced_from (b : option vm) (m x : N) (forms : list text) : list N :=
+  match b with
+  | None => S_ "BOOTFAIL"%string
+  | Some s0 =>
+      let '(out, s) := run_forms_sliced m x forms s0 [] in
+      S_ "SESSION"%string ++ out ++ S_ " LOG"%string ++ flat_map show_ev (rev (out_log s))
+  end.
+
+(* ------------------------------------- registers after each datum (74) *)
+Definition show_state (s : vm) (tr : option trace) : list N :=
+  S_ " [sp="%string ++ show_N (sp s) ++ S_ " bp="%string ++ show_N (bp s)
+  ++ S_ " cap="%string ++ show_N (scap s) ++ S_ " frames="%string
+  ++ match tr with Some fs => show_N (len fs) | None => [45] end ++ [93].
+
+Fixpoint state_text_all (ef : nat) (fuel : nat) (t : text) (s : vm) (acc : list N) : list N * vm :=
+  match fuel with
+  | O => (acc ++ S_ " NOFUEL"%string, s)
+  | S f =>
+      match parse_text t with
+      | Ok (d, rest) =>
+          match eval_cell_f ef d s with
+          | ROk r s' =>
+              let line := match r with
+                          | Done c => show_form_result (FOk c) ++ show_state s' None
+                          | Failed e m tr => show_form_result (FErr e m) ++ show_state s' tr
+                          | Yield => show_form_result FNoFuel end in
+              match rest with
+              | Some r' => state_text_all ef f r' s' (acc ++ line)
+              | None => (acc ++ line, s')
+              end
+          | RErr e m s' => (acc ++ show_form_result (FErr e m), s')
+          | RPanic _ => (acc ++ S_ " PANIC"%string, s)
+          | RNoFuel => (acc ++ S_ " NOFUEL"%string, s)
+          end
+      | Err e => (acc ++ show_form_result (FErr e []), s)
+      | Panic _ => (acc ++ S_ " PANIC"%string, s)
+      | NoFuel => (acc ++ S_ " NOFUEL"%string, s)
+      end
+  end.
+Fixpoint run_forms_state (forms : list text) (s : vm) (acc : list N) : list N :=
+  match forms with
+  | [] => acc
+  | t :: r => let '(o, s') := state_text_all EVAL_FUEL (S (length t)) t s [] in
+              run_forms_state r s' (acc ++ S_ " |"%string ++ o)
+  end.
+
+(* --------------------- stack high-water mark at instruction boundaries (75) *)
+Fixpoint step_hw (fuel : nat) (hw : N) (s : vm) : res run_result * N :=
+  match fuel with
+  | O => (RNoFuel, hw)
+  | S f =>
+      match run_count other_builtin 2 (Some 1) s with
+      | ROk Yield s' => step_hw f (N.max hw (sp s')) s'
+      | r => (r, hw)
+      end
+  end.
+Fixpoint hw_text_all (ef : nat) (fuel : nat) (t : text) (s : vm) (acc : list N) : list N * vm :=
+  match fuel with
+  | O => (acc ++ S_ " NOFUEL"%string, s)
+  | S f =>
+      match parse_text t with
+      | Ok (d, rest) =>
+          let '(r, hw) :=
+            match prepare_eval d s with
+            | ROk _ s1 => step_hw ef 0 s1
+            | RErr e msg s1 => (ROk (Failed e msg None) s1, 0)
+            | RPanic k => (RPanic k, 0)
+            | RNoFuel => (RNoFuel, 0)
+            end in
+          match r with
+          | ROk rr s' =>
+              let line := match rr with
+                          | Done c => show_form_result (FOk c)
+                          | Failed e m _ => show_form_result (FErr e m)
+                          | Yield => show_form_result FNoFuel end
+                          ++ S_ " hw="%string ++ show_N hw in
+              match rest with
+              | Some r' => hw_text_all ef f r' s' (acc ++ line)
+              | None => (acc ++ line, s')
+              end
+          | RErr e m s' => (acc ++ show_form_result (FErr e m), s')
+          | RPanic _ => (acc ++ S_ " PANIC"%string, s)
+          | RNoFuel => (acc ++ S_ " NOFUEL"%string, s)
+          end
+      | Err e => (acc ++ show_form_result (FErr e []), s)
+      | Panic _ => (acc ++ S_ " PANIC"%string, s)
+      | NoFuel => (acc ++ S_ " NOFUEL"%string, s)
+      end
+  end.
+Fixpoint run_forms_hw (forms : list text) (s : vm) (acc : list N) : list N :=
+  match forms with
+  | [] => acc
+  | t :: r => let '(o, s') := hw_text_all EVAL_FUEL (S (length t)) t s [] in
+              run_forms_hw r s' (acc ++ S_ " |"%string ++ o)
+  end.
+
+Definition run_session := run_session_from booted.
+Definition run_sliced := run_sliced_from booted.
+Definition run_state_from (b : option vm) (forms : list text) : list N :=
+  match b with Some s0 => S_ "STATE"%string ++ run_forms_state forms s0 [] | None => S_ "BOOTFAIL"%string end.
+Definition run_hw_from (b : option vm) (forms : list text) : list N :=
+  match b with Some s0 => S_ "HW"%string ++ run_forms_hw forms s0 [] | None => S_ "BOOTFAIL"%string end.
+(* 71: debugging aid — a machine booted WITHOUT the prelude (core forms only) *)
+Definition booted_bare : option vm := boot_with [].
+
+Definition run_vm (c : list N) : list N :=
+  match c with
+  | 70 :: n :: rest =>
+      match take_texts (N.to_nat n) rest with
+      | Some forms => run_session forms
+      | None => S_ "BADCASE"%string
+      end
+  | 71 :: n :: rest =>
+      match take_texts (N.to_nat n) rest with
+      | Some forms => run_session_from booted_bare forms
+      | None => S_ "BADCASE"%string
+      end
+  | 72 :: b :: n :: rest =>
+      match take_texts (N.to_nat n) rest with
+      | Some forms => run_sliced 0 b forms
+      | None => S_ "BADCASE"%string
+      end
+  | 73 :: seed :: m :: n :: rest =>
+      match take_texts (N.to_nat n) rest with
+      | Some forms => run_sliced (N.max m 1) seed forms
+      | None => S_ "BADCASE"%string
+      end
+  | 74 :: n :: rest =>
+      match take_texts (N.to_nat n) rest with
+      | Some forms => run_state_from booted forms
+      | None => S_ "BADCASE"%string
+      end
+  | 75 :: n :: rest =>
+      match take_texts (N.to_nat n) rest with
+      | Some forms => run_hw_from booted forms
+      | None => S_ "BADCASE"%string
+      end
+  | _ => S_ "BADCASE"%string
+  end.
